@@ -197,10 +197,6 @@ def declared(ft, c, k):
     return list(m["files"].get(k, [])) if m else []
 
 
-def strip_rel(l):
-    return [x - REL_OFF if x >= REL_OFF else x for x in l]
-
-
 def consistent(lists):
     """all lists are subsequences of one duplicate-free list <=> each duplicate-free and union of chains acyclic"""
     succ, nodes = {}, set()
@@ -298,16 +294,16 @@ def oracle(chk, table, hist, outcome, warned, seen):
         contrib = contributors(ft, ci)
         for k in range(len(KEYS)):
             got = o[1].get(k, o[1].get(str(k), []))
-            lists = [declared(ft, d, k) for d in contrib]
+            # a file declared by a component class whose module has that file beside it appears in its
+            # component-relative form (the class is resolved before its Media is read, whatever was accessed first)
+            lists = [[x + REL_OFF if (x == REL_FILE and ft[d]["rel"] and ft[d]["comp"]) else x for x in declared(ft, d, k)]
+                     for d in contrib]
             want = set(x for l in lists for x in l)
-            # a file declared by a class whose module has that file beside it may appear in its component-relative form
-            alt = set(x + REL_OFF for d, l in zip(contrib, lists) for x in l if x == REL_FILE and ft[d]["rel"] and ft[d]["comp"])
-            ok_set = len(set(got)) == len(got) and set(got) <= (want | alt) and all(x in got or (x + REL_OFF in alt and x + REL_OFF in got) for x in want)
-            if not ok_set:
+            if set(got) != want or len(set(got)) != len(got):
                 chk.fail("c16-file-set", "files of class %d (%s) are %r, declared by own class + selected bases: %r" % (ci, KEYS[k], got, sorted(want)), rep)
-            elif not alt and consistent(lists):
+            elif consistent(lists):
                 for d, l in zip(contrib, lists):
-                    if not is_subseq(l, strip_rel(got)):
+                    if not is_subseq(l, got):
                         chk.fail(T_FLATTEN if warned else "c16-order",
                                  "declared lists %r are mutually consistent but the result %r of class %d (%s) breaks the order %r declared by class %d"
                                  % ([x for x in lists if x], got, ci, KEYS[k], l, d), rep)
@@ -597,8 +593,9 @@ def run(tier, seed):
             n = len(table)
             hs = histories(chk.rng, table, 1 if kind.startswith("exh") else 2, exhaustive_media=exh and n <= 3 and (thorough or n <= 2))
             one_table(table, kind, hs)
-    # VERIF_C16_VARIANT="<flatten>,<eager>" (e.g. "false,true"): only for experiments on a scratch copy carrying a candidate
-    # repair (notes/fixes/C16-*.patch); the registered check always uses check_media = the variant describing /repo.
+    # check_media = the model variant describing /repo now (current_flatten = false, current_eager = true in Media/Model.v).
+    # VERIF_C16_VARIANT="<flatten>,<eager>" (e.g. "true,false" = the code before a5a18f6/488c746) is only for experiments
+    # on a scratch copy; the registered check never sets it.
     variant = os.environ.get("VERIF_C16_VARIANT")
     check_fn = "check_media" if not variant else "check_variant %s %s" % tuple(variant.split(","))
     bad = C.coq_eval_cases("C16", "media", IMPORTS, "list cls * list access * list N * outcome", check_fn, terms, shard=1500)
